@@ -114,12 +114,14 @@ def run(idx: Index, rep: Report, tier: str) -> None:
         if n.kind != "return":
             continue
         v = norm(n.ast.value) if n.ast.value is not None else "None"
-        gs = [(norm(t.ast), o) for t, o in guards_dominating(cfg, n)]
-        if any("name is not None" in t and o for t, o in gs):
-            ok = v == "self._engines[name]" and any("name in self._engines" in t and o for t, o in gs)
+        from ..rules2 import path_facts
+
+        fs = path_facts(cfg, n)
+        if ("name is None", False) in fs:
+            ok = v == "self._engines[name]" and ("name in self._engines", True) in fs
             rep.check(ok, rule2, "by name: the registered class of that name", g.loc(n.ast), construct=norm(n.ast), function=g.qualname)
         else:
-            ok = v == "EngineClass" and any("_engine_satisfies_conditions" in t and o for t, o in gs)
+            ok = v == "EngineClass" and any("_engine_satisfies_conditions" in t and o for t, o in fs)
             rep.check(ok, rule2, "without a name an engine is returned only after it satisfied the conditions", g.loc(n.ast), construct=norm(n.ast), detail="" if ok else "an engine class is returned without the requirement check", function=g.qualname)
     # falling out of the loop ends in the no-suitable-engine error
     loops = [l for l in cfg.nodes if l.kind == "for" and "_preference_list" in norm(l.owner.iter)]
